@@ -20,7 +20,7 @@ LEVEL = "exploration"
 RULE = (
     "Hypothesis generates parameter spaces (as C05) x scheduler in {synchronous, threads with 1/2/4/16 workers, processes with "
     "2/4 workers} x a value-dependent delay probe (so later parameters finish first) x pipeline kind {deterministic, seeded "
-    "stochastic} x outputs on/off. Oracle: for every parameter label every bucket of the with_dask result equals the "
+    "stochastic} x outputs on/off; every pipeline also lists a disabled model that would change the pixels. Oracle: for every parameter label every bucket of the with_dask result equals the "
     "sequential result selected by the same label, and with outputs every reported file holds the bucket of the run with its "
     "label. Calibration: fixed pygmo_seed, deterministic pipeline, scheduler in {synchronous, threads 4, threads 16}, 1..3 "
     "islands, island creation in a pool or serially - champions must be identical. The known race of seeded stochastic "
@@ -71,6 +71,8 @@ def _pipeline(case):
         extra["charge_measurement"] = [{"name": "rnd", "func": P + "stochastic", "enabled": True, "arguments": {"scale": 3.0}}]
     if case["kind"] == "stateful":  # a model that keeps memory on the detector (as trapped charge does): every run must start from the configured detector
         extra["charge_collection"] = [{"name": "mem", "func": P + "memory", "enabled": True, "arguments": {"bump": 0.25, "tag": "mem"}}]
+    # a model that is switched off: it must stay off in every worker (thread, process), whatever way the pipeline travels there
+    extra.setdefault("charge_measurement", []).append({"name": "off", "func": P + "memory", "enabled": False, "arguments": {"bump": 1000.0, "tag": "off"}})
     return echo_pipeline(extra)
 
 
